@@ -1,12 +1,12 @@
 SPECIFICATION Spec
 CONSTANTS
   Procs = {1}
-  MaxRev = 8
-  MaxOps = 3
-  MaxFaults = 0
+  MaxRev = 10
+  MaxOps = 4
+  MaxFaults = 2
   MaxCrash = 0
-  MaxEdits = 0
-  FaultKinds = {}
+  MaxEdits = 2
+  FaultKinds = {"res", "wait"}
   Sequential = TRUE
   Planned = TRUE
   MaxPlan = 36
@@ -14,7 +14,7 @@ CONSTANTS
   LogSched = FALSE
   KeepLog = FALSE
   OpMenu <- MenuOwn
-  EditMenu <- EditsNone
+  EditMenu <- EditsNew
   PreMenu <- PreOwn
   Objs <- AllObjs
   MenuGuard <- GuardBias
